@@ -13,6 +13,7 @@ import PyIkev2.Proofs.Machine
 import PyIkev2.Proofs.HandlersKernel
 import PyIkev2.Proofs.WholeSad
 import PyIkev2.Proofs.HandlersRekey
+import PyIkev2.Proofs.WholeSad2
 
 namespace PyIkev2.Props.C10
 open PyIkev2 PyIkev2.Impl
@@ -335,5 +336,127 @@ example : ∀ x ∈ exEvs, EvOK x.2 := by
   intro x hx
   simp only [exEvs, List.mem_cons, List.not_mem_nil, or_false] at hx
   rcases hx with rfl | rfl | rfl | rfl | rfl | rfl | rfl <;> exact ⟨(by intro h p a b m hd; simp at hd), (by intro h p a b hd; simp at hd)⟩
+
+/-! ### the whole model, whole histories, THROUGH IKE_SA rekeys
+
+  `Sync2` (Proofs/WholeSad2.lean): the kernel SAD is exactly the CHILD_SAs of the table's IKE_SAs, every entry once; every table entry and
+  every *pending* successor (the `new_ike_sa` of an entry that has not handed over yet) is an object of its own with an SPI nobody else
+  uses; a pending successor holds no CHILD_SA.  The per-call results (`CallOk`, the frozen regime) are lifted by the second contract
+  theorem (Proofs/ShellLift2.lean), in which a request / response call may leave the table one registration away from consistency
+  (`Trans`) and the controller's `afterMessage` closes the gap in the same step. -/
+
+/-- the successor of every IKE_SA past its hand-over is in the table (a rekeyed IKE_SA does not outlive its successor) -/
+def allListedB (c : List Sa) : Bool :=
+  c.all fun s => !(decide (inPost s.core.st)) || (match s.succ with | some n => registered c n | none => true)
+
+theorem allListed_of_b (c : List Sa) (h : allListedB c = true) : AllListed c := by
+  intro s hs hp n hn
+  unfold allListedB at h
+  rw [List.all_eq_true] at h
+  have := h s hs
+  simp only [hp, decide_true, Bool.not_true, Bool.false_or, hn] at this
+  exact this
+
+/-- the state after start-up is in sync -/
+theorem c10_whole_model_start2 (tape : Tape) (confs : List (Bytes × Bytes × Conf)) (threshold : Nat) :
+    Sync2 ({ tape := tape, exts := [], confs := confs, sad := [] }, { sas := [], threshold := threshold }) := by
+  right
+  exact { spis := List.nodup_nil, objs := fun s hs => by simp at hs, pend := fun s hs => by simp at hs,
+          stored := fun s hs => by simp at hs, sad := fun k => by simp [tableKeys], nodup := List.nodup_nil }
+
+/-- **every history of the whole model, IKE_SA rekeys included** — any number of IKE_SAs, any interleaving of datagrams of any content
+    (authentic or not, duplicated, reordered; CREATE_CHILD_SA for CHILD_SAs and for the IKE_SA; error replies, INVALID_KE_PAYLOAD and
+    TEMPORARY_FAILURE retries), ACQUIREs, EXPIREs, status queries, clock ticks with the retransmission / DPD / lifetime sweeps (the
+    rekey timer included), any oracle values and any kernel refusals: after every round the kernel SAD is exactly the two SAs of every
+    CHILD_SA of every IKE_SA in the table, each once, and no two table entries share an SPI.
+
+    Hypotheses: the start is in sync; header-only parse and full parse of a datagram are of the same datagram; the model never gave
+    two objects one SPI (`clash`); and — the partial part — in every state reached, the successor of an IKE_SA that has handed over
+    (REKEYED / DEL_AFTER_REKEY_IKE_SA_REQ_SENT / DELETED) is still in the table.  The last one fails only when a rekeyed IKE_SA
+    outlives its successor; there Python's `new_ike_sa` is a live reference and the model's table entry a copy, so the statement
+    about the model would not be one about the code (DESIGN §9). -/
+theorem c10_whole_model_history_through_rekeys_partial (evs : List (Nat × LoopEv)) (w : XWorld) (c : Ctl) (h0 : Sync2 (w, c))
+    (hlisted : ∀ k, k < evs.length → AllListed (wholeRun (w, c) (evs.take k)).2.sas)
+    (hev : ∀ x ∈ evs, EvCoherent x.2) (hclash : (wholeRun (w, c) evs).1.clash = false) :
+    (∀ k, k ∈ (wholeRun (w, c) evs).1.sad ↔ k ∈ (wholeRun (w, c) evs).2.sas.flatMap (fun s => keysOf s.core)) ∧
+    ((wholeRun (w, c) evs).2.sas.flatMap (fun s => keysOf s.core)).Nodup ∧
+    ((wholeRun (w, c) evs).2.sas.map (·.core.mySpi)).Nodup := by
+  rcases wholeRun_sync2 evs (w, c) h0 hlisted hev with h | h
+  · rw [hclash] at h; cases h
+  · refine ⟨h.sad, h.nodup, ?_⟩
+    have := h.spis
+    unfold allSpis at this
+    have hsub : ((wholeRun (w, c) evs).2.sas.map (·.core.mySpi)).Sublist
+        ((wholeRun (w, c) evs).2.sas.flatMap fun s => s.core.mySpi :: pendSpi s) := by
+      induction (wholeRun (w, c) evs).2.sas with
+      | nil => exact List.Sublist.slnil
+      | cons s rest ih =>
+        simp only [List.map_cons, List.flatMap_cons, List.cons_append]
+        exact List.Sublist.cons₂ _ ((ih).trans (List.sublist_append_right _ _))
+    exact this.sublist hsub
+
+/-! non-vacuity, with an IKE_SA rekey in it: the peer asks to rekey the IKE_SA of the earlier example (the CHILD_SA goes to the
+   successor, the kernel is not touched), then deletes the old IKE_SA; the successor's CHILD_SA expires hard, the peer stays silent,
+   the successor is removed with its SAs.  Every hypothesis holds in every prefix; the SAD has two entries up to the end and none then. -/
+
+def rekeyReq : Msg :=
+  { hdr := { spiI := exCore.mySpi, spiR := exCore.peerSpi, major := 2, minor := 0, exch := 36, isResp := false, higher := false,
+             isInit := false, msgId := 0 },
+    payloads := [],
+    enc := [mkP ptSA (.sa [{ exProp with spi := [7,7,7,7,7,7,7,7] }]), mkP ptNONCE (.nonce [1,2,3,4]), mkP ptKE (.ke 14 [5,6,7,8])],
+    iv := none }
+def deleteOld : Msg :=
+  { hdr := { rekeyReq.hdr with exch := 37, msgId := 1 }, payloads := [], enc := [mkP ptDELETE (.delete 1 [])], iv := none }
+def exW2 : XWorld :=
+  { exW with tape := { vals := [.bytes [8,8,8,8,8,8,8,8], .num 3, .bytes [9,9,9,9], .bytes [4,4], .flag true, .bytes [6,6]] } }
+def exEvs2 : List (Nat × LoopEv) :=
+  [(1000, { datagram := some (some rekeyReq.hdr, some rekeyReq, [192,168,0,1], [192,168,0,2]) }),
+   (2000, { datagram := some (some deleteOld.hdr, some deleteOld, [192,168,0,1], [192,168,0,2]) }),
+   (3000, { expire := some ([0xa,0,0,1], true) }),
+   (6000, {}), (20000, {}), (40000, {}), (80000, {}), (160000, {})]
+
+example : Sync2 (exW2, exC) := by
+  right
+  refine { spis := by decide, objs := ?_, pend := ?_, stored := ?_, sad := ?_, nodup := by decide }
+  · intro s hs
+    simp only [exC, List.mem_singleton] at hs
+    subst hs
+    exact ⟨{ conf := exConf, kids := [exKid] }, by decide, by decide⟩
+  · intro s hs _ n hn
+    simp only [exC, List.mem_singleton] at hs
+    subst hs
+    cases hn
+  · intro s hs n hn
+    simp only [exC, List.mem_singleton] at hs
+    subst hs
+    cases hn
+  · intro k
+    have : tableKeys exC.sas = exW2.sad := by decide
+    rw [this]
+
+example : ∀ k, k < exEvs2.length → allListedB (wholeRun (exW2, exC) (exEvs2.take k)).2.sas = true := by decide +kernel
+
+example : (wholeRun (exW2, exC) exEvs2).1.clash = false ∧
+    (wholeRun (exW2, exC) (exEvs2.take 1)).2.sas.map (fun s => (s.core.st, s.core.children.length)) = [(stREKEYED, 0), (stESTABLISHED, 1)] ∧
+    (wholeRun (exW2, exC) (exEvs2.take 1)).1.sad.length = 2 ∧
+    (wholeRun (exW2, exC) (exEvs2.take 2)).2.sas.map (fun s => (s.core.st, s.core.children.length)) = [(stESTABLISHED, 1)] ∧
+    (wholeRun (exW2, exC) (exEvs2.take 2)).1.sad.length = 2 ∧
+    (wholeRun (exW2, exC) exEvs2).1.sad = [] ∧ (wholeRun (exW2, exC) exEvs2).2.sas = [] := by decide +kernel
+
+example : ∀ x ∈ exEvs2, EvCoherent x.2 := by
+  intro x hx
+  simp only [exEvs2, List.mem_cons, List.not_mem_nil, or_false] at hx
+  rcases hx with rfl | rfl | rfl | rfl | rfl | rfl | rfl | rfl
+  · intro h p a b hd
+    simp only [Option.some.injEq, Prod.mk.injEq] at hd
+    obtain ⟨rfl, rfl, _, _⟩ := hd
+    intro h' m' hh hm
+    cases hh; cases hm; exact ⟨rfl, rfl⟩
+  · intro h p a b hd
+    simp only [Option.some.injEq, Prod.mk.injEq] at hd
+    obtain ⟨rfl, rfl, _, _⟩ := hd
+    intro h' m' hh hm
+    cases hh; cases hm; exact ⟨rfl, rfl⟩
+  all_goals (intro h p a b hd; simp at hd)
 
 end PyIkev2.Props.C10
